@@ -35,6 +35,8 @@ func main() {
 			scenPeers(rng, tr, i, *events)
 		case "match":
 			scenMatch(rng, tr, i, *events)
+		case "wrap":
+			scenWrap(rng, tr, i, *events)
 		case "net":
 			scenNet(rng, tr, i, *events)
 		case "block":
